@@ -129,9 +129,12 @@ func (h *NFSProcedureHandler) handleWrite(body io.Reader, reply *RPCReply, authC
 	}
 
 	// Bound count to the server's advertised write size to prevent DoS
-	maxWriteSize := uint32(h.server.handler.tuning.Load().TransferSize)
-	if maxWriteSize == 0 {
+	transferSize := h.server.handler.tuning.Load().TransferSize
+	maxWriteSize := uint32(transferSize)
+	if transferSize <= 0 {
 		maxWriteSize = 1048576 // 1MB default
+	} else if uint64(transferSize) > math.MaxUint32 {
+		maxWriteSize = math.MaxUint32 // do not let a huge setting wrap around to a tiny limit
 	}
 	if count > maxWriteSize {
 		return nfsErrorWithWcc(reply, NFSERR_INVAL), nil
